@@ -265,33 +265,44 @@ class SkelEval(Eval):
         raise Unbound(t)
 
     def ev_acc(self, t):
+        """the list built by the pushes of an accumulator: pushes inside one loop interleave per iteration, in program order"""
         out = []
-        for en in self.ogp.accs[t[1]]['entries']:
-            loops = [l for l in en['loops'] if l[0] not in self.elems]
+        ents = [(en, [l for l in en['loops'] if l[0] not in self.elems]) for en in self.ogp.accs[t[1]]['entries']]
 
-            def rec(i):
-                if i == len(loops):
-                    if self.truth(en['cond']):
-                        if en.get('flat'):
-                            out.extend(self.iterable(self.ev(en['val']), en['val']))
-                        else:
-                            out.append(self.ev(en['val']))
-                    return
-                eid, src, conds = loops[i]
+        def emit(group, depth):
+            i = 0
+            while i < len(group):
+                en, loops = group[i]
+                if depth >= len(loops):
+                    try:
+                        if self.truth(en['cond']):
+                            if en.get('flat'):
+                                out.extend(self.iterable(self.ev(en['val']), en['val']))
+                            else:
+                                out.append(self.ev(en['val']))
+                    except Diverge:
+                        pass
+                    i += 1
+                    continue
+                eid, src, conds = loops[depth]
+                j = i
+                while j < len(group) and depth < len(group[j][1]) and group[j][1][depth][0] == eid:
+                    j += 1
                 items = self.iterable(self.ev(src), src)
-                for j, x in enumerate(items):
+                for k, x in enumerate(items):
                     self.elems[eid] = x
-                    self.pos[eid] = j
+                    self.pos[eid] = k
                     try:
                         if all(self.truth(c) for c in conds):
-                            rec(i + 1)
+                            emit(group[i:j], depth + 1)
                     finally:
                         self.elems.pop(eid, None)
                         self.pos.pop(eid, None)
-            try:
-                rec(0)
-            except Diverge:
-                pass
+                i = j
+        try:
+            emit(ents, 0)
+        except Diverge:
+            pass
         return out
 
     def ev_idx(self, t):
